@@ -129,7 +129,8 @@ def check_text(pp, text, cands, names, where, case, feat):
         tol = 0.5 * 10.0 ** -d * float(ref.SI[prefix]) * 1.0001
         ok = any(cb == base and (name is None or cn == name) and abs(val - cv) <= tol + 1e-7 * abs(cv) for cb, cv, cn in cands)
         if not ok:
-            near = sorted((abs(val - cv), cv, cn) for cb, cv, cn in cands if cb == base and (name is None or cn == name))[:2]
+            near = sorted(((abs(val - cv), cv, cn) for cb, cv, cn in cands if cb == base and (name is None or cn == name)),
+                          key=lambda t: t[0])[:2]
             vs.append(V(f"instructions | instruction-amount | {feat}",
                         f"{where}: the text says {m.group(0)!r} but no amount of this operation matches (closest true values in "
                         f"{base}: {[(round(c, 12), n) for _, c, n in near]}); full text: {text!r}", case, None, m.group(0)))
@@ -186,7 +187,9 @@ def direct_cases():
                          'name': 'N'})
     for cap in ('inf L', '100 mL', '2 L', '750 uL'):
         for contents in ([['water', '10 mL'], ['nacl', '5.844 g']], [['dmso', '250 uL'], ['lipase', '5 U']],
-                         [['nacl', '3 mg'], ['na2so4', '20 ug']], [['water', '1.2 L']], [['lipase', '0.02 U'], ['water', '30 nL']], []):
+                         [['nacl', '3 mg'], ['na2so4', '20 ug']], [['water', '1.2 L']], [['lipase', '0.02 U'], ['water', '30 nL']], [],
+                         # the same substance listed twice (also in different units)
+                         [['water', '5 mL'], ['nacl', '1 g'], ['water', '7 mL']], [['nacl', '2 g'], ['nacl', '10 mmol']]):
             acts.append({'op': 'new_container', 'name': 'N', 'max': cap, 'contents': contents})
     return acts
 
